@@ -14,6 +14,8 @@ CONSTANTS
   Cfg,      \* [fthr, fcap, frate, fexec, period (0 = count based; else = 10*SliceU), sthr, scap, delay]
   SliceU,   \* units per time slice
   Ticks,    \* set of clock advances offered to the environment
+  Letters,  \* enabled standalone letters, subset of {"RecS","RecF","Try","open","halfopen","closed"}
+  ExecDelays, \* delay-function values offered to executions through the breaker (-1 = no computed delay); {} = no executions
   Depth     \* number of environment actions per generated history
 
 VARIABLES
@@ -21,9 +23,10 @@ VARIABLES
   br,       \* code-shaped breaker state
   log,      \* history: every recorded result since the current state was entered: <<time, ok>>
   epochAt,  \* history: instant the current state was entered
+  odl,      \* history: the delay this open period must last: the configured one, or the delay function's value
   hist      \* generated behaviour: sequence of [act, d, obs]
 
-vars == <<now, br, log, epochAt, hist>>
+vars == <<now, br, log, epochAt, odl, hist>>
 
 Max(a, b) == IF a > b THEN a ELSE b
 Min(a, b) == IF a < b THEN a ELSE b
@@ -86,22 +89,24 @@ ToOpen(b, t, d) == [b EXCEPT !.st = "open", !.openedAt = t, !.odelay = d]       
 NewHalf == [st |-> "halfopen", stats |-> NewCounting(HalfCap), openedAt |-> 0, odelay |-> 0, permitted |-> HalfCap]
 
 \* transitionTo: only when the state differs; the event carries the OLD state's metrics
-Trans(b, to, t) ==
+\* dl: ComputeDelay(exec), else the configured delay (transitionTo: "if delay == -1 { delay = cb.Delay }")
+TransD(b, to, t, dl) ==
   IF b.st = to THEN [b |-> b, ev |-> <<>>]
   ELSE [b |-> CASE to = "closed" -> NewClosed
-                [] to = "open" -> ToOpen(b, t, Cfg.delay)
+                [] to = "open" -> ToOpen(b, t, IF dl = -1 THEN Cfg.delay ELSE dl)
                 [] to = "halfopen" -> NewHalf,
         ev |-> <<[old |-> b.st, new |-> to, m |-> Metrics(b.stats)]>>]
+Trans(b, to, t) == TransD(b, to, t, -1)
 
 \* closedState.checkThresholdAndReleasePermit
-ClosedCheck(b, t) ==
+ClosedCheck(b, t, dl) ==
   IF /\ StExec(b.stats) >= Cfg.fexec
      /\ \/ (Cfg.frate # 0 /\ StFRate(b.stats) >= Cfg.frate)
         \/ (Cfg.frate = 0 /\ StFail(b.stats) >= Cfg.fthr)
-  THEN Trans(b, "open", t) ELSE [b |-> b, ev |-> <<>>]
+  THEN TransD(b, "open", t, dl) ELSE [b |-> b, ev |-> <<>>]
 
 \* halfOpenState.checkThresholdAndReleasePermit (the permit++ lands on the old state object: lost on a transition)
-HalfCheck(b, t) ==
+HalfCheck(b, t, dl) ==
   LET s == b.stats
       sx == IF Cfg.sthr # 0 THEN StSucc(s) >= Cfg.sthr
             ELSE IF Cfg.frate # 0 THEN StExec(s) >= Cfg.fexec /\ StSRate(s) > 100 - Cfg.frate
@@ -110,15 +115,17 @@ HalfCheck(b, t) ==
             ELSE IF Cfg.frate # 0 THEN StExec(s) >= Cfg.fexec /\ StFRate(s) >= Cfg.frate
             ELSE StFail(s) >= Cfg.fthr
   IN IF sx THEN Trans(b, "closed", t)
-     ELSE IF fx THEN Trans(b, "open", t)
+     ELSE IF fx THEN TransD(b, "open", t, dl)
      ELSE [b |-> [b EXCEPT !.permitted = @ + 1], ev |-> <<>>]
 
 \* recordSuccess / recordFailure: record into the current state's stats (open: the previous state's), then check
-Record(b, ok, t) ==
+\* dl = the delay function's value for the failing execution being recorded (-1: none / standalone call)
+RecordD(b, ok, t, dl) ==
   LET b1 == [b EXCEPT !.stats = StRecord(b.stats, ok, t)] IN
-  CASE b.st = "closed" -> ClosedCheck(b1, t)
+  CASE b.st = "closed" -> ClosedCheck(b1, t, dl)
     [] b.st = "open" -> [b |-> b1, ev |-> <<>>]
-    [] b.st = "halfopen" -> HalfCheck(b1, t)
+    [] b.st = "halfopen" -> HalfCheck(b1, t, dl)
+Record(b, ok, t) == RecordD(b, ok, t, -1)
 
 \* tryAcquirePermit
 TryAcq(b, t) ==
@@ -143,38 +150,59 @@ Init ==
   /\ br = NewClosed
   /\ log = <<>>
   /\ epochAt = 0
+  /\ odl = 0
   /\ hist = <<>>
 
-\* bookkeeping of the history variables on a state change
-Hist(r, act, d, ret, lg) ==
-  /\ br' = r.b
-  /\ hist' = Append(hist, [act |-> act, d |-> d, obs |-> Obs(r.b, now', r.ev, ret)])
-  /\ IF r.b.st # br.st THEN log' = <<>> /\ epochAt' = now' ELSE log' = lg /\ epochAt' = epochAt
+\* bookkeeping shared by all steps: b2/evs = new breaker state and the events of the step, lg2 = new log
+Book(act, d, ret, b2, evs, lg2) ==
+  /\ br' = b2
+  /\ hist' = Append(hist, [act |-> act, d |-> d, obs |-> Obs(b2, now', evs, ret)])
+  /\ log' = lg2
+  /\ epochAt' = IF evs # <<>> THEN now' ELSE epochAt
+  /\ odl' = IF evs # <<>> /\ evs[Len(evs)].new = "open"
+            THEN (IF act = "Exec" /\ ret = "fail" /\ d # -1 THEN d ELSE Cfg.delay) ELSE odl
 
 RecordStep(ok) ==
   /\ now' = now
   /\ LET r == Record(br, ok, now) IN
      \* results recorded while open land in the previous state's stats and are outside every property clause
-     Hist(r, IF ok THEN "RecordSuccess" ELSE "RecordFailure", 0, "none",
-          IF br.st = "open" THEN log ELSE Append(log, <<now, ok>>))
+     Book(IF ok THEN "RecordSuccess" ELSE "RecordFailure", 0, "none", r.b, r.ev,
+          IF br.st = "open" THEN log ELSE IF r.ev # <<>> THEN <<>> ELSE Append(log, <<now, ok>>))
 
 TryAcquireStep ==
   /\ now' = now
-  /\ LET r == TryAcq(br, now) IN Hist(r, "TryAcquirePermit", 0, IF r.ret THEN "true" ELSE "false", log)
+  /\ LET r == TryAcq(br, now) IN
+     Book("TryAcquirePermit", 0, IF r.ret THEN "true" ELSE "false", r.b, r.ev, IF r.ev # <<>> THEN <<>> ELSE log)
 
 ManualStep(to) ==
   /\ now' = now
-  /\ Hist(Trans(br, to, now), CASE to = "open" -> "Open" [] to = "halfopen" -> "HalfOpen" [] to = "closed" -> "Close", 0, "none", log)
+  /\ LET r == Trans(br, to, now) IN
+     Book(CASE to = "open" -> "Open" [] to = "halfopen" -> "HalfOpen" [] to = "closed" -> "Close", 0, "none",
+          r.b, r.ev, IF r.ev # <<>> THEN <<>> ELSE log)
+
+\* one execution through the breaker's policy executor (circuitbreakerexecutor.go): PreExecute = TryAcquirePermit
+\* (refused => ErrOpen, nothing recorded); the function returns at the same instant; OnSuccess -> recordSuccess,
+\* OnFailure -> recordFailure(exec), the only path on which the delay function is consulted.
+ExecStep(ok, dv) ==
+  /\ now' = now
+  /\ LET a == TryAcq(br, now) IN
+     IF ~a.ret THEN Book("Exec", dv, "rejected", a.b, a.ev, log)
+     ELSE LET r == RecordD(a.b, ok, now, IF ok THEN -1 ELSE dv) IN
+          Book("Exec", dv, IF ok THEN "ok" ELSE "fail", r.b, a.ev \o r.ev,
+               IF r.ev # <<>> THEN <<>> ELSE Append(IF a.ev # <<>> THEN <<>> ELSE log, <<now, ok>>))
 
 TickStep(d) ==
   /\ now' = now + d
-  /\ Hist([b |-> br, ev |-> <<>>], "Tick", d, "none", log)
+  /\ Book("Tick", d, "none", br, <<>>, log)
 
 Next ==
   /\ Len(hist) < Depth
-  /\ \/ RecordStep(TRUE) \/ RecordStep(FALSE)
-     \/ TryAcquireStep
-     \/ \E to \in {"open", "halfopen", "closed"} : ManualStep(to)
+  /\ \/ ("RecS" \in Letters /\ RecordStep(TRUE))
+     \/ ("RecF" \in Letters /\ RecordStep(FALSE))
+     \/ ("Try" \in Letters /\ TryAcquireStep)
+     \/ \E to \in {"open", "halfopen", "closed"} \cap Letters : ManualStep(to)
+     \/ \E dv \in ExecDelays : ExecStep(FALSE, dv)
+     \/ (ExecDelays # {} /\ ExecStep(TRUE, -1))
      \/ \E d \in Ticks : TickStep(d)
 
 Spec == Init /\ [][Next]_vars
@@ -184,23 +212,31 @@ Spec == Init /\ [][Next]_vars
 SliceOf(t) == t \div SliceU
 Count(S) == Cardinality(S)
 LogIdx == 1..Len(log)
+Last == hist'[Len(hist')]            \* the step being taken (action properties only)
+\* which verdict the step records, if any
+RecOf(h) == CASE h.act = "RecordSuccess" \/ (h.act = "Exec" /\ h.obs.ret = "ok") -> "S"
+              [] h.act = "RecordFailure" \/ (h.act = "Exec" /\ h.obs.ret = "fail") -> "F"
+              [] OTHER -> "none"
+\* is the step a permit request (standalone or the executor's)?
+IsRequest(h) == h.act \in {"TryAcquirePermit", "Exec"}
+Admitted(h) == h.obs.ret \in {"true", "ok", "fail"}
 
 \* Definitional window of a closed breaker at the instant of its latest record.
 \* Count based: the last `cap` results of the epoch.  Time based: results whose slice is among the last 10.
+ClosedCap == IF Cfg.fexec # 0 THEN Cfg.fexec ELSE Cfg.fcap
+WindowOf(lg, at) ==
+  IF Cfg.period = 0 THEN {i \in 1..Len(lg) : i > Len(lg) - ClosedCap}
+  ELSE {i \in 1..Len(lg) : SliceOf(lg[i][1]) > SliceOf(at) - 10}
+FailsIn(lg, W) == Count({i \in W : ~lg[i][2]})
+SuccsIn(lg, W) == Count({i \in W : lg[i][2]})
 LastRecAt == IF Len(log) = 0 THEN epochAt ELSE log[Len(log)][1]
-ClosedWindow ==
-  IF Cfg.period = 0
-  THEN LET cap == IF Cfg.fexec # 0 THEN Cfg.fexec ELSE Cfg.fcap IN {i \in LogIdx : i > Len(log) - cap}
-  ELSE {i \in LogIdx : SliceOf(log[i][1]) > SliceOf(LastRecAt) - 10}
-WinFail(W) == Count({i \in W : ~log[i][2]})
-WinSucc(W) == Count({i \in W : log[i][2]})
+ClosedWindow == WindowOf(log, LastRecAt)
 
-\* the incremental counters are the definitional window (checked whenever the breaker is closed:
-\* nothing expires between records, StaleMetrics)
+\* the incremental counters are the definitional window (nothing expires between records: StaleMetrics)
 WindowRefinement ==
   br.st = "closed" =>
-     /\ StFail(br.stats) = WinFail(ClosedWindow)
-     /\ StSucc(br.stats) = WinSucc(ClosedWindow)
+     /\ StFail(br.stats) = FailsIn(log, ClosedWindow)
+     /\ StSucc(br.stats) = SuccsIn(log, ClosedWindow)
 
 \* "results older than the thresholding period never count, those from its most recent nine tenths always do"
 WindowBounds ==
@@ -209,69 +245,69 @@ WindowBounds ==
         /\ (LastRecAt - log[i][1] > Cfg.period => i \notin ClosedWindow)
         /\ (10 * (LastRecAt - log[i][1]) < 9 * Cfg.period => i \in ClosedWindow)
 
-\* the documented opening predicate on the definitional window
-ShouldOpen(W) ==
-  LET n == Count(W)   f == WinFail(W) IN
+\* the documented opening predicate on a window
+ShouldOpen(lg, W) ==
+  LET n == Count(W)   f == FailsIn(lg, W) IN
   /\ n >= Cfg.fexec
   /\ IF Cfg.frate # 0 THEN Pct(f, n) >= Cfg.frate ELSE f >= Cfg.fthr
 
 \* while closed the threshold is never met (it would have opened) ...
-ClosedMeansBelowThreshold == (br.st = "closed" /\ Len(log) > 0) => ~ShouldOpen(ClosedWindow)
+ClosedMeansBelowThreshold == (br.st = "closed" /\ Len(log) > 0) => ~ShouldOpen(log, ClosedWindow)
 
-\* ... and a record step leaves the closed state only to open, and only when the threshold is met on
-\* the window including that result  (action property)
+\* ... and a recording step taken while closed opens the breaker iff the threshold is met on the window
+\* including that result, and otherwise leaves it closed
 OpensExactlyWhen ==
-  [][ (br.st = "closed" /\ hist' # hist /\ hist'[Len(hist')].act \in {"RecordSuccess", "RecordFailure"})
-      => LET lg == Append(log, <<now, hist'[Len(hist')].act = "RecordSuccess">>)
-             W == IF Cfg.period = 0
-                  THEN LET cap == IF Cfg.fexec # 0 THEN Cfg.fexec ELSE Cfg.fcap IN {i \in 1..Len(lg) : i > Len(lg) - cap}
-                  ELSE {i \in 1..Len(lg) : SliceOf(lg[i][1]) > SliceOf(now) - 10}
-             n == Count(W)   f == Count({i \in W : ~lg[i][2]})
-             should == n >= Cfg.fexec /\ (IF Cfg.frate # 0 THEN Pct(f, n) >= Cfg.frate ELSE f >= Cfg.fthr)
-         IN (br'.st = "open") <=> should ]_vars
+  [][ (br.st = "closed" /\ hist' # hist /\ RecOf(Last) # "none")
+      => LET lg == Append(log, <<now, RecOf(Last) = "S">>) IN
+         IF ShouldOpen(lg, WindowOf(lg, now)) THEN br'.st = "open" ELSE br'.st = "closed" ]_vars
 
-\* open: admits nothing before the delay, half-opens on the first request at or after it
+\* open: every request before the delay is refused and changes nothing; the first one at or after it is
+\* admitted in the half-open state
 OpenAdmission ==
-  [][ (br.st = "open" /\ hist' # hist /\ hist'[Len(hist')].act = "TryAcquirePermit")
-      => IF now - epochAt >= Cfg.delay
-         THEN br'.st = "halfopen" /\ hist'[Len(hist')].obs.ret = "true"
-         ELSE br'.st = "open" /\ hist'[Len(hist')].obs.ret = "false" ]_vars
+  [][ (br.st = "open" /\ hist' # hist /\ IsRequest(Last))
+      => IF now - epochAt >= odl
+         THEN Admitted(Last) /\ Len(Last.obs.events) >= 1 /\ Last.obs.events[1].new = "halfopen"
+         ELSE ~Admitted(Last) /\ br' = br ]_vars
 
 \* only a permit request or a manual call leaves the open state; time alone and records never do
 OpenIsSticky ==
-  [][ (br.st = "open" /\ br'.st # "open") => hist'[Len(hist')].act \in {"TryAcquirePermit", "HalfOpen", "Close"} ]_vars
+  [][ (br.st = "open" /\ hist' # hist /\ ~IsRequest(Last) /\ Last.act \notin {"HalfOpen", "Close"}) => br'.st = "open" /\ epochAt' = epochAt ]_vars
 
 RemainingDelayExact ==
   Len(hist) > 0 =>
-     hist[Len(hist)].obs.rem = (IF br.st = "open" THEN Max(0, Cfg.delay - (now - epochAt)) ELSE 0)
+     hist[Len(hist)].obs.rem = (IF br.st = "open" THEN Max(0, odl - (now - epochAt)) ELSE 0)
 
 \* half-open: trial results are decided within the trial capacity, in the documented direction
 TrialCap == HalfCap
 TrialDecision ==
   br.st = "halfopen" =>
      /\ Len(log) < TrialCap                          \* capacity results never accumulate without a decision
-     /\ LET s == WinSucc(LogIdx)  f == WinFail(LogIdx) IN
+     /\ LET s == SuccsIn(log, LogIdx)  f == FailsIn(log, LogIdx) IN
         IF Cfg.sthr # 0 THEN s < Cfg.sthr /\ f <= Cfg.scap - Cfg.sthr
         ELSE IF Cfg.frate # 0 THEN TRUE
         ELSE f < Cfg.fthr /\ s <= Cfg.fcap - Cfg.fthr
 
+\* a standalone record while half-open that ends the trial goes in the documented direction
 TrialDirection ==
-  [][ (br.st = "halfopen" /\ hist' # hist /\ hist'[Len(hist')].act \in {"RecordSuccess", "RecordFailure"} /\ br'.st # "halfopen")
-      => LET ok == hist'[Len(hist')].act = "RecordSuccess"
-             s == WinSucc(LogIdx) + (IF ok THEN 1 ELSE 0)
-             f == WinFail(LogIdx) + (IF ok THEN 0 ELSE 1) IN
+  [][ (br.st = "halfopen" /\ hist' # hist /\ Last.act \in {"RecordSuccess", "RecordFailure", "Exec"} /\ RecOf(Last) # "none" /\ br'.st # "halfopen")
+      => LET ok == RecOf(Last) = "S"
+             s == SuccsIn(log, LogIdx) + (IF ok THEN 1 ELSE 0)
+             f == FailsIn(log, LogIdx) + (IF ok THEN 0 ELSE 1) IN
          IF Cfg.sthr # 0 THEN (br'.st = "closed" <=> s >= Cfg.sthr)
          ELSE IF Cfg.frate # 0 THEN (br'.st = "open" <=> Pct(f, s + f) >= Cfg.frate)
          ELSE (br'.st = "open" <=> f >= Cfg.fthr) ]_vars
 
-\* events of one step form a connected path ending in the current state, each carrying the metrics of the state left
+\* half-open admission: never more outstanding trial permits than the capacity when every permit is paired
+\* with a result (executions only)
+\* events of one step form a connected path from the state before to the state after
 EventPath ==
-  Len(hist) > 0 =>
-    LET evs == hist[Len(hist)].obs.events IN
-    /\ Len(evs) <= 1
-    /\ (Len(evs) = 1 => evs[1].new = br.st /\ evs[1].old # evs[1].new)
-EventIffChange ==
-  [][ hist' # hist => ((br'.st # br.st) <=> (Len(hist'[Len(hist')].obs.events) = 1 /\ hist'[Len(hist')].obs.events[1].old = br.st)) ]_vars
+  [][ hist' # hist =>
+      LET evs == Last.obs.events IN
+      /\ (evs = <<>> => br'.st = br.st)
+      /\ (evs # <<>> => /\ evs[1].old = br.st
+                        /\ evs[Len(evs)].new = br'.st
+                        /\ \A i \in 1..Len(evs) : evs[i].old # evs[i].new
+                        /\ \A i \in 1..(Len(evs) - 1) : evs[i].new = evs[i + 1].old) ]_vars
 
 TypeOK == br.st \in {"closed", "open", "halfopen"} /\ now >= 0
 
